@@ -96,6 +96,7 @@ pub fn oracles_for(prop: &str, c: &Case, impl_result: &str) -> Vec<Verdict> {
         ("C13", Case::Write { shx: _, ctors }) => v.push(extra::oracle_c13(ctors)),
         ("C15", Case::Rhist { target, shp, shx, ops }) | ("C14", Case::Rhist { target, shp, shx, ops }) => v.push(extra::oracle_c15(target, shp, shx.as_deref(), ops)),
         ("C03", Case::Read { .. }) | ("C03", Case::ReadFlat { .. }) | ("C14", Case::ReadFlat { .. }) => v.push(oracle_c07(impl_result)),
+        ("C08", Case::DbfHist { base, ops }) => v.push(extra::oracle_c08(base, ops)),
         ("C16", Case::Construct(c)) => v.push(oracle_c16(c)),
         ("C16", Case::Ring(d, r, ps)) => v.push(oracle_c16(&Ctor::PolygonRings(*d, vec![(*r, ps.clone())]))),
         ("C18", Case::Size(c)) => v.push(oracle_c18(c)),
@@ -185,6 +186,25 @@ fn cases_for(prop: &str, tier: &str, seed: u64, out: &mut Out) {
                         ops.push(ROp::Hint);
                         ops.push(ROp::It(99));
                         out.case(&Case::Rhist { target: "generic".into(), shp: shp.clone(), shx: Some(shx.clone()), ops });
+                    }
+                    "C13" => {
+                        // the reading side of the correspondence on truncated files: boundaries and random cuts
+                        let mut cuts: Vec<usize> = vec![0, 3, 99, 100, 108, shp.len().saturating_sub(1), shp.len()];
+                        if let Ok(recs) = walk_records(&shp) {
+                            for (off, len) in recs {
+                                cuts.push(off as usize * 2);
+                                cuts.push(off as usize * 2 + 8 + len as usize);
+                            }
+                        }
+                        for _ in 0..6 {
+                            cuts.push(rng.below(shp.len() + 1));
+                        }
+                        for t in cuts {
+                            let t = t.min(shp.len());
+                            out.case(&Case::Read { target: "generic".into(), shp: shp[..t].to_vec(), shx: if rng.chance(1, 3) { Some(shx.clone()) } else { None } });
+                        }
+                        let tx = rng.below(shx.len() + 1);
+                        out.case(&Case::Read { target: "generic".into(), shp: shp.clone(), shx: Some(shx[..tx].to_vec()) });
                     }
                     "C05" => {
                         for ct in ctors.iter().take(2) {
